@@ -638,7 +638,11 @@ def auto_discharge_assert(site):
             if ra and rb:
                 return 'A3: usize length arithmetic, operands bounded (%s; %s)' % (ra, rb)
         if op == 'Sub':
-            for cop, ca, cb, sbb, tb in facts_at(body, site.bb):
+            UNSIGNED = ('usize', 'u64', 'u32', 'u16', 'u8', 'u128')
+            # for a signed type `a >= b` does not bound `a - b` (32767 - (-1)): the comparison rules below then need a
+            # non-negative constant subtrahend
+            signed_ok = ty in UNSIGNED or (strip_casts(b)[0] == 'const' and strip_casts(b)[1] >= 0)
+            for cop, ca, cb, sbb, tb in (facts_at(body, site.bb) if signed_ok else []):
                 if cb is None:
                     continue
                 if ca[0] == 'cast' and ca[1] == 'IntToInt' and ca[2] in ('u64', 'usize') and nosite(ca[3]) == nosite(a):
@@ -941,11 +945,24 @@ def tight_guards(rep, rule, bodies):
     for b in bodies:
         for s in collect_sites(b, ('partial',)):
             con = getattr(s, 'contract', None)
-            if not con or con[0] not in ('len_arg', 'fixed'):
+            if not con or con[0] not in ('len_arg', 'fixed', 'slice_arg'):
                 continue
             args = s.cs.args()
-            need = args[con[2]] if con[0] == 'len_arg' else ('const', con[2])
-            g = guard_for_len(b, s.bb, need, args[con[1]])
+            g = None
+            if con[0] == 'slice_arg':
+                # len(dst) vs remaining(recv): find the dominating comparison between the two lengths
+                dst = strip_refs(strip_casts(strip_refs(args[con[2]])))
+                need = ('call', 'len', (dst,))
+                for op, a, c_, sbb, tb in facts_at(b, s.bb):
+                    if c_ is None:
+                        continue
+                    if op in ('Ge', 'Gt') and is_len_of(a, args[con[1]]) and _is_slice_len(c_, dst):
+                        g = (op, a, c_, sbb)
+                    if op in ('Le', 'Lt') and is_len_of(c_, args[con[1]]) and _is_slice_len(a, dst):
+                        g = (op, a, c_, sbb)
+            else:
+                need = args[con[2]] if con[0] == 'len_arg' else ('const', con[2])
+                g = guard_for_len(b, s.bb, need, args[con[1]])
             if not g:
                 continue
             n += 1
